@@ -11,7 +11,7 @@ Decided (structural, necessary) clauses:
 """
 from common import Rule, V, finish
 from mirlib import ENTRY_POINTS, short_path, op_const
-from rulelib import (is_fs_mut, calls_named, try_propagated, continue_edge_of_try,
+from rulelib import (result_killed_unexamined, is_fs_mut, calls_named, try_propagated, continue_edge_of_try,
                      blocks_reachable_from, strip_generics, is_cache_new, arg_by_type, ARG_TYPES)
 
 PROP = "C17"
@@ -137,6 +137,12 @@ def check(ctx):
         r2.bad(V(r2.id, "<anchor>", "generate_models-impls", "expected >= 2 implementations of BaseBindingsGenerator::generate_models, found %d" % len(gen_impls)))
     scope |= P.reachable(gen_impls)
     scope |= {s.fn.id for s in save_sites}
+    # ... and the bodies of every mutating step that runs in those functions (their own Result must be faithful, all the way down)
+    for s_ in save_sites:
+        for c_ in s_.fn.calls:
+            for t_ in P.targets(c_):
+                if fsreach(t_):
+                    scope |= {g_ for g_ in P.reachable([t_]) if fsreach(g_) or any(is_fs_mut(k_) for k_ in P.fns[g_].calls)}
     n_sites = 0
     for fid in sorted(scope):
         f = P.fns[fid]
@@ -160,7 +166,11 @@ def check(ctx):
                 continue
             n_sites += 1
             ok, how, _ = try_propagated(f, c)
-            if ok:
+            kill = result_killed_unexamined(f, c) if ok else None
+            if kill:
+                r2.bad(V(r2.id, fid, "result-overwritten:%s" % short_path(c.best),
+                         "the Result of filesystem-mutating step %s can be %s: only a later result is propagated, an earlier failure is lost" % (c.best, kill), c.file, c.line))
+            elif ok:
                 r2.ok("%s: %s @%s — %s" % (short_path(fid), short_path(c.best), c.where(), how))
             else:
                 r2.bad(V(r2.id, fid, "unpropagated:%s" % short_path(c.best),
@@ -210,7 +220,33 @@ def check(ctx):
             else:
                 r2b.bad(V(r2b.id, main.id, "no-nonzero-exit-on-Err:%s" % short_path(rc.best),
                           "the Err result of %s does not lead to process::exit(<non-zero>)" % rc.best, rc.file, rc.line))
-        r2b.require_floor(2, "run_generate/run_init call sites in main")
+        # ... and on the way down nothing swallows the failure either: in every function between an entry point and a function that generates
+        # (calls generate_models), the Result of the call that leads to generation is propagated — `init` runs a first generation, the build script
+        # wraps generate_bindings, the library interface wraps the same steps
+        gen_fns = {fid for fid in reach if any(c.path == GEN_MODELS for c in P.fns[fid].calls)}
+        memo_g = {}
+
+        def leads_to_generation(t):
+            return t in gen_fns or P.reaches(t, lambda k: k.path == GEN_MODELS, memo_g)
+        n_chain = 0
+        for fid in sorted(reach):
+            f = P.fns[fid]
+            if fid in gen_fns or "{promoted#" in fid or fid == main.id:
+                continue
+            for c in f.calls:
+                if c.bb not in f.reach_blocks or not any(leads_to_generation(t) for t in P.targets(c)):
+                    continue
+                if not c.term.get("dest_ty", "").startswith("std::result::Result<"):
+                    continue
+                n_chain += 1
+                ok, how, _ = try_propagated(f, c)
+                kill = result_killed_unexamined(f, c) if ok else None
+                if ok and not kill:
+                    r2b.ok("%s: failure of %s is passed on (%s)" % (short_path(fid), short_path(c.best), how))
+                else:
+                    r2b.bad(V(r2b.id, fid, "generation-failure-swallowed:%s" % short_path(c.best),
+                              "%s does not pass on the failure of %s (%s): a run whose generation failed is reported as success" % (short_path(fid), short_path(c.best), kill or how), c.file, c.line))
+        r2b.require_floor(3, "run_generate/run_init call sites in main + callers of generating functions")
     rules.append(r2b)
 
     # ---------------------------------------------------------------- D3
